@@ -22,7 +22,50 @@ pub fn none() -> Value { json!({"none": 1}) }
 pub fn opt<T>(o: Option<T>, f: impl FnOnce(T) -> Value) -> Value {
     match o { Some(x) => f(x), None => none() }
 }
-pub fn mk_date(n: i64) -> NaiveDate { NaiveDate::from_num_days_from_ce_opt(n as i32).unwrap() }
+/// Problems met while BUILDING input values (a constructor or the day-number accessor of the code under test
+/// misbehaving). They are written out by `drive` as `days` events for Trace_Calendar, which rejects them: a broken
+/// constructor must surface as a violation, never as a crash of the harness.
+pub static PROBLEMS: std::sync::Mutex<Vec<Value>> = std::sync::Mutex::new(Vec::new());
+fn problem(n: i64, observed: i64) {
+    let mut p = PROBLEMS.lock().unwrap();
+    if p.len() < 200 { p.push(json!({"op": "days", "n": n, "r": observed, "note": "building an input value"})); }
+}
+/// days -> (y, m, d), independent of chrono (Howard Hinnant's civil_from_days, shifted to 0001-01-01 = 1)
+pub fn civil_from_days(n: i64) -> (i32, u32, u32) {
+    let z = n - 1 + 306;                      // days since 0000-03-01
+    let era = z.div_euclid(146_097);
+    let doe = z.rem_euclid(146_097);
+    let yoe = (doe - doe / 1460 + doe / 36_524 - doe / 146_096) / 365;
+    let doy = doe - (365 * yoe + yoe / 4 - yoe / 100);
+    let mp = (5 * doy + 2) / 153;
+    let d = doy - (153 * mp + 2) / 5 + 1;
+    let m = if mp < 10 { mp + 3 } else { mp - 9 };
+    let y = yoe + era * 400 + if m <= 2 { 1 } else { 0 };
+    (y as i32, m as u32, d as u32)
+}
+/// (y, m, d) -> day number, independent of chrono
+pub fn days_from_civil(y: i32, m: u32, d: u32) -> i64 {
+    let y = y as i64 - if m <= 2 { 1 } else { 0 };
+    let era = y.div_euclid(400);
+    let yoe = y.rem_euclid(400);
+    let mp = (m as i64 + 9) % 12;
+    let doy = (153 * mp + 2) / 5 + d as i64 - 1;
+    let doe = yoe * 365 + yoe / 4 - yoe / 100 + doy;
+    era * 146_097 + doe - 306 + 1
+}
+pub fn mk_date(n: i64) -> NaiveDate {
+    match crate::guard(|| NaiveDate::from_num_days_from_ce_opt(n as i32)) {
+        Ok(Some(d)) => {
+            match crate::guard(|| d.num_days_from_ce() as i64) { Ok(back) if back == n => {}, Ok(back) => problem(n, back), Err(_) => problem(n, NO_DATE) }
+            d
+        }
+        _ => {
+            problem(n, NO_DATE);
+            let (y, m, d) = civil_from_days(n);
+            crate::guard(|| NaiveDate::from_ymd_opt(y, m, d)).ok().flatten().unwrap_or(NaiveDate::MIN)
+        }
+    }
+}
 pub fn mk_time(secs: u32, frac: u32) -> NaiveTime { NaiveTime::from_num_seconds_from_midnight_opt(secs, frac).unwrap() }
 pub fn ymd(d: NaiveDate) -> (i32, u32, u32) { (d.year(), d.month(), d.day()) }
 
